@@ -179,6 +179,17 @@ func Run(c *core.Ctx) {
 		}
 		cells = append(cells, &prog{P: p, Src: src, Args: model.AttrCellArgs(), Source: "matrix", Batch: 1000, Index: idx, Cell: p.Label})
 	}
+	for i, p := range model.CallCells("CC") {
+		idx = 200000 + i
+		if only != nil && (only.Source != "matrix" || only.Index != idx) {
+			continue
+		}
+		src := p.Print()
+		if err := accepted(src); err != nil {
+			core.Infra("call cell rejected: %v\n%s", err, src)
+		}
+		cells = append(cells, &prog{P: p, Src: src, Args: model.MatrixArgs(), Source: "matrix", Batch: 1000, Index: idx, Cell: p.Label})
+	}
 	c.Set("matrix_cells_compiled", len(cells))
 	c.Set("matrix_cells_rejected_by_parser", mxRejected)
 	c.Set("matrix_cells_outside_grammar", mxSkipped)
